@@ -163,6 +163,12 @@ def run(res, tier, seed, driver_ok):
         n = int(np.prod(sh))
         a = (np.arange(n).reshape(sh) * 1.37 - 2.005)
         cases.append((a, 'array%dd:f' % a.ndim if a.ndim < 5 else 'array5d'))
+    forced_nd = {}
+    for nd_ in (0, 0, 1, 3):      # every decimals setting at which rounding and truncation part ways, table and LaTeX mode alike; specials at nd = 0
+        forced_nd[len(cases)] = nd_
+        cases.append((np.array([[2.6, -1.7, 0.49], [3.5, 998.9, -0.5]]) * (1.0 if nd_ != 1 else 1.04), 'array2d:f'))
+    forced_nd[len(cases)] = 0
+    cases.append((np.array([[float('inf'), 1.5], [float('nan'), -2.5]]), 'array2d:f'))
     for n_ in range(N + len(cases)):
         if n_ < len(cases):
             o, d = cases[n_]
@@ -171,6 +177,7 @@ def run(res, tier, seed, driver_ok):
             o, toks, d = gen_obj(rnd, tm, Wrench)
         title = rnd.choice(TITLES)
         nd = rnd.randint(0, 8)
+        nd = forced_nd.get(n_, nd)
         pdims = rnd.random() < 0.8
         kinds[d.split(':')[0]] = kinds.get(d.split(':')[0], 0) + 1
         stats['objects'] += 1
@@ -220,6 +227,18 @@ def run(res, tier, seed, driver_ok):
                 got = [c.strip() for l in body for c in l[:-2].split('&')] if o.shape[1] > 0 else []
                 if o.shape[1] > 0 and len(got) != o.size:
                     bad('tex-elements-missing', 'LaTeX mode does not show every element', inp, {'cells': len(got), 'elements': int(o.size)})
+                elif o.shape[1] > 0 and o.dtype.kind == 'f':
+                    for v_, c_ in zip(o.reshape(-1).tolist(), got):
+                        try:
+                            f_ = float(c_)
+                        except ValueError:
+                            f_ = None
+                        if math.isnan(v_) or math.isinf(v_):
+                            okc = f_ is not None and ((math.isnan(v_) and math.isnan(f_)) or v_ == f_)
+                        else:
+                            okc = f_ is not None and abs(f_ - v_) <= 0.5 * 10.0 ** (-nd) * (1 + 1e-9) + 1e-12 * abs(v_)
+                        if not okc:
+                            bad('tex-element-wrong', 'a LaTeX cell is not the element rounded to the requested decimals', inp, {'value': v_, 'cell': c_, 'nd': nd}); break
             except Exception as e:
                 bad('raises:tex:%s' % type(e).__name__, 'disp in LaTeX mode raised on a 2-D matrix', inp, repr(e)[:200])
         if toks is None:
